@@ -7,6 +7,7 @@ import (
 	"fmt"
 	"io"
 	"net"
+	"strings"
 	"sync"
 	"testing"
 	"time"
@@ -38,6 +39,17 @@ func isTimeout(err error) bool {
 
 // C39: the in-memory stream pipe is a faithful byte stream.
 func runC39(t *testing.T, prop string, seed uint64, tier string, replay *hcommon.Replay) hcommon.RunResult {
+	if replay != nil && len(replay.Plan) > 0 {
+		var probe struct {
+			Scenario string `json:"scenario"`
+		}
+		json.Unmarshal(replay.Plan, &probe)
+		if probe.Scenario == "unblock" {
+			return runC39Unblock(t, prop, seed, tier, replay)
+		}
+	} else if seed%4 == 3 {
+		return runC39Unblock(t, prop, seed, tier, replay)
+	}
 	r := simrt.NewRand(simrt.Mix(seed, 39))
 	p := &c39Plan{Buf: pick(r, 1, 2, 3, 7, 16, 64), Total: 20 + r.Intn(200), CloseAt: -1, ReaderCl: -1, Sticky: pick(r, 0, 0.5, 0.9)}
 	for n := 0; n < p.Total; {
@@ -186,8 +198,75 @@ func firstDiff(a, b []byte) int {
 // ---------------------------------------------------------------------------
 // C40: bidirectional piping
 
+// halfQ is one direction of an in-memory stream whose reader gets its final bytes
+// together with io.EOF in one Read call (n > 0 and err == io.EOF) when the writer
+// has already closed - which io.Reader allows and some stream implementations do.
+// Nothing is withheld: data is handed out as soon as it is there.
+type halfQ struct {
+	ch   chan []byte
+	done chan struct{}
+	once sync.Once
+	left []byte
+}
+
+func newHalfQ() *halfQ { return &halfQ{ch: make(chan []byte, 256), done: make(chan struct{})} }
+
+func (q *halfQ) read(p []byte) (int, error) {
+	if len(q.left) == 0 {
+		select {
+		case b := <-q.ch:
+			q.left = b
+		case <-q.done:
+			select {
+			case b := <-q.ch:
+				q.left = b
+			default:
+				simrt.Yield("h:q-eof")
+				return 0, io.EOF
+			}
+		}
+		simrt.Yield("h:q-read")
+	}
+	n := copy(p, q.left)
+	q.left = q.left[n:]
+	if len(q.left) == 0 {
+		select {
+		case <-q.done:
+			if len(q.ch) == 0 {
+				return n, io.EOF
+			}
+		default:
+		}
+	}
+	return n, nil
+}
+
+func (q *halfQ) write(p []byte) (int, error) {
+	select {
+	case <-q.done:
+		return 0, io.ErrClosedPipe
+	default:
+	}
+	q.ch <- append([]byte(nil), p...)
+	simrt.Yield("h:q-write")
+	return len(p), nil
+}
+
+func (q *halfQ) close() { q.once.Do(func() { close(q.done) }) }
+
+// qEnd is one end of a duplex stream made of two halfQ.
+type qEnd struct{ in, out *halfQ }
+
+func qPipe() (*qEnd, *qEnd) {
+	a, b := newHalfQ(), newHalfQ()
+	return &qEnd{in: a, out: b}, &qEnd{in: b, out: a}
+}
+func (e *qEnd) Read(p []byte) (int, error)  { return e.in.read(p) }
+func (e *qEnd) Write(p []byte) (int, error) { return e.out.write(p) }
+func (e *qEnd) Close() error                { e.out.close(); e.in.close(); return nil }
+
 type memStream struct {
-	in      net.Conn // data arriving from the far side
+	in      io.ReadWriteCloser // data arriving from the far side
 	name    string
 	closed  int
 	failAt  int // fail Read after this many bytes (-1 never)
@@ -212,20 +291,27 @@ func (m *memStream) Close() error {
 }
 
 type c40Plan struct {
-	AB, BA  int     `json:"ab_bytes"`
+	AB      int     `json:"ab_bytes"`
+	BA      int     `json:"ba_bytes"`
 	First   string  `json:"first_to_close"`
 	FailAt  int     `json:"fail_at"`
 	Buf     int     `json:"buf"`
 	Sticky  float64 `json:"sticky"`
+	DataErr string  `json:"data_with_error,omitempty"` // "", "x", "y", "xy": which stream hands out its last bytes together with EOF
+	Quick   bool    `json:"quick_close,omitempty"`     // the side that finishes first closes right after its last write (no linger)
+	Chunk   int     `json:"chunk,omitempty"`           // applications write in chunks of this size (0: one write)
 }
 
 // Two applications X and Y are connected through Pipe(sx, sy):  X <-> [x' sx] Pipe [sy y'] <-> Y
 func runC40(t *testing.T, prop string, seed uint64, tier string, replay *hcommon.Replay) hcommon.RunResult {
 	r := simrt.NewRand(simrt.Mix(seed, 40))
-	p := &c40Plan{AB: r.Intn(300), BA: r.Intn(300), First: pick(r, "x", "y"), FailAt: -1, Buf: pick(r, 1, 8, 64), Sticky: pick(r, 0, 0.5, 0.9)}
+	p := &c40Plan{AB: pick(r, 0, r.Intn(300), r.Intn(300)), BA: pick(r, 0, r.Intn(300), r.Intn(300)), First: pick(r, "x", "y"), FailAt: -1, Buf: pick(r, 1, 8, 64), Sticky: pick(r, 0, 0.5, 0.9)}
 	if r.Chance(0.25) {
 		p.FailAt = r.Intn(100)
 	}
+	p.DataErr = pick(r, "", "", "x", "y", "xy")
+	p.Quick = r.Chance(0.4)
+	p.Chunk = pick(r, 0, 0, 1, 7, 40)
 	if replay != nil && len(replay.Plan) > 0 {
 		p = &c40Plan{}
 		json.Unmarshal(replay.Plan, p)
@@ -243,14 +329,21 @@ func runC40(t *testing.T, prop string, seed uint64, tier string, replay *hcommon
 	var out simrt.Outcome
 	simrt.Bubble(simrt.TB{T: t}, func() {
 		out = simrt.Run(simrt.Config{Chooser: chooser(seed, p.Sticky, replay), EnvSeed: seed, MaxSteps: 500_000, MaxIdle: time.Hour}, func() {
-			x, xs := bufconn.BufferedPipe(p.Buf)
-			y, ys := bufconn.BufferedPipe(p.Buf)
+			var x, xs, y, ys io.ReadWriteCloser
+			x, xs = bufconn.BufferedPipe(p.Buf)
+			y, ys = bufconn.BufferedPipe(p.Buf)
+			if strings.Contains(p.DataErr, "x") {
+				x, xs = qPipe()
+			}
+			if strings.Contains(p.DataErr, "y") {
+				y, ys = qPipe()
+			}
 			sx := &memStream{in: xs, name: "sx", failAt: p.FailAt}
 			sy := &memStream{in: ys, name: "sy", failAt: -1}
 			errc := tun.Pipe(sx, sy)
 			var wg sync.WaitGroup
 			var gotAtY, gotAtX []byte
-			app := func(c net.Conn, send []byte, got *[]byte, closesFirst bool) {
+			app := func(c io.ReadWriteCloser, send []byte, got *[]byte, closesFirst bool) {
 				defer wg.Done()
 				var iw sync.WaitGroup
 				iw.Add(1)
@@ -265,10 +358,18 @@ func runC40(t *testing.T, prop string, seed uint64, tier string, replay *hcommon
 						}
 					}
 				})
-				c.Write(send)
+				if p.Chunk <= 0 {
+					c.Write(send)
+				} else {
+					for off := 0; off < len(send); off += p.Chunk {
+						c.Write(send[off:min(len(send), off+p.Chunk)])
+					}
+				}
 				if closesFirst {
 					// everything this side wrote before it finished must still arrive
-					simrt.Sleep(time.Second, "h:linger")
+					if !p.Quick {
+						simrt.Sleep(time.Second, "h:linger")
+					}
 					c.Close()
 				}
 				iw.Wait()
@@ -294,7 +395,25 @@ func runC40(t *testing.T, prop string, seed uint64, tier string, replay *hcommon
 				res.Violate(prop, "no-completion", "Pipe did not report completion within a simulated minute after both sides finished")
 			}
 			simrt.Yield("h:completed")
-			if p.FailAt < 0 {
+			if p.FailAt < 0 && p.Quick {
+				// the side that finished first stopped listening at once: only its own bytes are owed in full.
+				// The class records whether the other side was sending at the time (it then runs into the
+				// closed stream, and the pipe tears both streams down while the closer's last bytes are
+				// still on their way: known finding) or idle (nothing can overtake the closer's bytes).
+				peer := "peer-idle"
+				if p.First == "x" && len(ba) > 0 || p.First == "y" && len(ab) > 0 {
+					peer = "peer-sending"
+				}
+				if p.First == "x" && !bytes.Equal(gotAtY, ab) {
+					res.Violate(prop, "closer-bytes-lost/"+peer, "side Y received %d of the %d bytes side X wrote before it closed (first difference %d)", len(gotAtY), len(ab), firstDiff(ab, gotAtY))
+				}
+				if p.First == "y" && !bytes.Equal(gotAtX, ba) {
+					res.Violate(prop, "closer-bytes-lost/"+peer, "side X received %d of the %d bytes side Y wrote before it closed (first difference %d)", len(gotAtX), len(ba), firstDiff(ba, gotAtX))
+				}
+				if !bytes.Equal(gotAtY, ab[:min(len(ab), len(gotAtY))]) || !bytes.Equal(gotAtX, ba[:min(len(ba), len(gotAtX))]) {
+					res.Violate(prop, "reordered", "bytes arrived out of order")
+				}
+			} else if p.FailAt < 0 {
 				if !bytes.Equal(gotAtY, ab) {
 					res.Violate(prop, "x-to-y-lost", "side Y received %d of the %d bytes side X wrote before finishing (first difference %d)", len(gotAtY), len(ab), firstDiff(ab, gotAtY))
 				}
@@ -326,12 +445,12 @@ func runC40(t *testing.T, prop string, seed uint64, tier string, replay *hcommon
 // C46: promise.All
 
 type c46Plan struct {
-	N       int     `json:"n"`
-	Delays  []int   `json:"delays_ms"`
-	Errs    []bool  `json:"errs"`
-	Late    []int   `json:"late_ms"` // how long a task keeps running after cancellation
-	Cancel  int     `json:"cancel_ms"` // 0: never
-	Sticky  float64 `json:"sticky"`
+	N      int     `json:"n"`
+	Delays []int   `json:"delays_ms"`
+	Errs   []bool  `json:"errs"`
+	Late   []int   `json:"late_ms"`   // how long a task keeps running after cancellation
+	Cancel int     `json:"cancel_ms"` // 0: never
+	Sticky float64 `json:"sticky"`
 }
 
 func runC46(t *testing.T, prop string, seed uint64, tier string, replay *hcommon.Replay) hcommon.RunResult {
